@@ -62,7 +62,7 @@ PROPS = {
         ],
     },
     'C03': {
-        'streams': ['prefix', 'readloop'],
+        'streams': ['prefix', 'readloop', 'clientread'],
         'shrink': {'prefix': 'hex'},
         'assumptions': [
             "error kinds other than 'incomplete' are one class (the server answers 400 to all of them)",
@@ -74,6 +74,15 @@ PROPS = {
         'shrink': {'parse': 'hex'},
         'assumptions': [
             "strict_head allows any byte except LF inside a field value (the property constrains line structure, names, method and target, not value bytes); the reported value has leading ASCII whitespace removed",
+        ],
+    },
+    'C06': {
+        'streams': ['body'],
+        'shrink': {},
+        'assumptions': [
+            "std::io::BufReader (capacity 4096: refill only when empty, bypass for reads >= capacity on an empty buffer, read_exact, read_line = read_until + UTF-8 check) is modelled, not verified; pinned by this stream",
+            "the stream delivers at least one byte per read until EOF and never fails (no I/O errors); the theorems quantify over leftover|stream split, segmentation and positive buffer sizes",
+            "zero-length caller buffers are outside the theorems (FixedReader::read(&mut []) reports truncation on a non-empty remaining body)",
         ],
     },
 }
